@@ -66,8 +66,15 @@ structure Eng where
   active : Bind := Bind.none
   mainTbl : List (Seq × Bind) := []
   isEmacs : Bool := true
+  /-- main keymap is vi-insert -/
+  viInsert : Bool := false
+  /-- the `convert-meta` variable -/
+  convertMetaOn : Bool := false
   registered : List String := []
 deriving Repr
+
+/-- `Engine.insertsText` -/
+def Eng.insertsText (e : Eng) : Bool := (e.isEmacs || e.viInsert) && !e.convertMetaOn
 
 /-- `dispatchKeys` on the key stack. Fuel = number of keys available. -/
 def dispatchKeys (tbl : List (Seq × Bind)) : Nat → Eng → Seq → Seq → Bool → Eng × Bool × Seq × Seq
@@ -91,12 +98,51 @@ def isEscapeKey (e : Eng) : Bool := e.keys.matched == [0x1b]
 
 def hasCmd (e : Eng) (b : Bind) : Bool := !b.isMacro && e.registered.contains b.action
 
+/-- `utf8.FullRune` -/
+def fullRune (p : List Nat) : Bool :=
+  match p with
+  | [] => false
+  | b0 :: t =>
+    let need := if b0 < 0x80 then 0 else if b0 < 0xC2 then 1 else if b0 < 0xE0 then 2
+                else if b0 < 0xF0 then 3 else if b0 < 0xF5 then 4 else 1
+    if p.length ≥ need then true else
+    let lo := if b0 = 0xE0 then 0xA0 else if b0 = 0xF0 then 0x90 else 0x80
+    let hi := if b0 = 0xED then 0x9F else if b0 = 0xF4 then 0x8F else 0xBF
+    match t with
+    | [] => false
+    | b1 :: t2 =>
+      if b1 < lo ∨ hi < b1 then true else
+      match t2 with
+      | [] => false
+      | b2 :: _ => !cont b2
+
+/-- the loop of `matchCharacter`: collect the bytes of one multibyte character.
+Returns the engine, the bytes read and whether the character is complete. -/
+def matchCharLoop : Nat → Eng → Seq → Eng × Seq × Bool
+  | 0, e, read => (e, read, true)
+  | f+1, e, read =>
+    if fullRune read then (e, read, true) else
+    match e.keys.peek with
+    | none => (e, read, false)
+    | some k => matchCharLoop f { e with keys := e.keys.pop } (read ++ [k])
+
+def selfInsertBind : Bind := ⟨"self-insert", false⟩
+
+/-- the multibyte fallback of `MatchMain` + `matchCharacter`: engine, bind, prefix, read -/
+def matchCharacter (e : Eng) (bind : Bind) (pfx : Bool) (read : Seq) : Eng × Bind × Bool × Seq :=
+  if bind.action = "" ∧ pfx = false ∧ read.length = 1 ∧ read.headD 0 ≥ 0x80 ∧ e.insertsText = true then
+    let r := matchCharLoop 4 e read
+    if r.2.2 = false then (r.1, Bind.none, true, r.2.1)
+    else if (decodeRune r.2.1).1 = 0xFFFD then (r.1, Bind.none, false, r.2.1)
+    else ({ r.1 with active := selfInsertBind }, selfInsertBind, false, r.2.1)
+  else (e, bind, pfx, read)
+
 /-- `MatchMain` (no non-incremental search). Returns engine, bind, command present, prefix. -/
 def matchMain (e : Eng) : Eng × Bind × Bool × Bool :=
   if e.mainTbl.isEmpty then (e, Bind.none, false, false) else
   let n := e.keys.buf.length + e.keys.mkeys.length
-  let (e1, pfx, read, _) := dispatchKeys e.mainTbl n e [] [] false
-  let bind := e1.active
+  let (e0, pfx0, read0, _) := dispatchKeys e.mainTbl n e [] [] false
+  let (e1, bind, pfx, read) := matchCharacter e0 e0.active pfx0 read0
   let e2 := { e1 with keys := if pfx then e1.keys.matchedPrefix read else e1.keys.matchedKeys read [] }
   if isEscapeKey e2 && !e2.isEmacs && pfx then
     -- handleEscape(true)
